@@ -139,6 +139,7 @@ struct ParseOpts {
   long den_limit = 5000;
   bool free_tree = true;
   bool keep_tracking = false; // do not reset the tree allocator: start a new epoch (several live trees)
+  bool apply_settings = true; // call the six setters with cf first; false: parse with whatever the object holds (histories)
 };
 // every block reachable from root: node blocks and name blocks; counts distinct TERM nodes
 void collectBlocks(yaep_tree_node *root, std::set<void *> &blocks, long &nTerm);
